@@ -29,7 +29,7 @@ ASSUMPTIONS = [
 BUDGET = {"quick": 75, "thorough": 900}
 ROUNDS = {"thorough": 8}
 FLOORS = {"pairs_compared": {"quick": 1500, "thorough": 15000}, "rerootings": {"quick": 200, "thorough": 2000},
-          "relations": 12}
+          "relations": 13}
 
 
 def cases(tier, seed):
@@ -138,6 +138,10 @@ def orbit(case):
         v = copy.deepcopy(case)
         v["use_tip_states"] = not case["use_tip_states"]
         out.append(("tip-representation", v, 1.0))
+    # 6b the alignment holds a Taxa object of its own with the taxa in another order: data still follow the names
+    v = copy.deepcopy(case)
+    v["aln_taxa_order"] = [case["names"][i] for i in rng.permutation(n)]
+    out.append(("alignment-taxa-object", v, 1.0))
     # 7 all of the above at once
     v = copy.deepcopy(case)
     v["names"] = [case["names"][i] for i in rng.permutation(n)]
